@@ -229,6 +229,7 @@ void VBackend::Solve() {
   RunOps();
   if (vd::g_cfg.solve_throw == 1) throw std::runtime_error("scripted solver failure");
   if (vd::g_cfg.solve_throw == 2) MP_RAISE_WITH_CODE(sol::FAILURE + 1, "scripted solver failure with code");
+  if (vd::g_cfg.solve_throw == 3) Abort(vd::g_cfg.status, vd::g_cfg.status_text);      // the backend gives up with a solve-result code
 }
 
 }  // namespace mp
